@@ -397,6 +397,7 @@ def invChain (L' : Term) (prod diag : Poly) : Except Err Poly :=
       | .ok hm =>
         match (PObj.poly diag).add hm with
         | .ok (.poly r) => .ok r
+        | .ok (.zero _) => .ok []
         | .ok _ => .error .type
         | .error e => .error e
 
@@ -426,12 +427,35 @@ theorem invTerm_g (t : Term) : (invTerm t).1.g = t.1.g := by
   · simp only [smulI]; split <;> rfl
   · rfl
 
-theorem invChain_eq (L' : Term) (prod diag : Poly) :
+/-- the last step of the chain: a sum with a polynomial operand yields its term list, also when everything cancels
+    (then the library returns the polynomial without terms, `.zero _`, and the term list is `[]`) -/
+theorem addOut_poly (diag Y : Poly) :
+    (match (PObj.poly diag).add (.poly Y) with
+      | .ok (.poly r) => .ok r
+      | .ok (.zero _) => .ok []
+      | .ok _ => .error .type
+      | .error e => .error e : Except Err Poly) = .ok (polyAdd diag Y) := by
+  show (match (Except.ok (normP (PObj.poly diag).N (polyAdd diag Y)) : Except Err PObj) with
+      | .ok (.poly r) => .ok r
+      | .ok (.zero _) => .ok []
+      | .ok _ => .error .type
+      | .error e => .error e : Except Err Poly) = .ok (polyAdd diag Y)
+  generalize polyAdd diag Y = X
+  cases X with
+  | nil => rfl
+  | cons t X => rfl
+
+/-- the closed form of the chain; `prod ≠ []` is needed since the library returns the polynomial without terms (not a term
+    list) for an empty product — `sbrgStep` runs the chain only under `prod.length ≠ 0` -/
+theorem invChain_eq (L' : Term) (prod diag : Poly) (hp : prod ≠ []) :
     invChain L' prod diag = .ok (polyAdd diag (polySmul ⟨1 / 2, 0⟩ (polyMatmul [invTerm L'] prod))) := by
-  unfold invChain monoInverse PObj.div PObj.rmul invTerm
-  cases unitPow (L'.2.mul (Cx.ipow L'.1.p)).inv with
-  | some k => rfl
-  | none => rfl
+  cases prod with
+  | nil => exact absurd rfl hp
+  | cons y ys =>
+    unfold invChain monoInverse PObj.div PObj.rmul invTerm
+    cases unitPow (L'.2.mul (Cx.ipow L'.1.p)).inv with
+    | some k => exact addOut_poly diag _
+    | none => exact addOut_poly diag _
 
 /-- the triple returned by an iteration -/
 def stepOut (i0 : Nat) (heff : Poly) (circ' : Circ) (h2 : Poly) : Poly × Poly × Circ :=
@@ -470,7 +494,7 @@ theorem nextOf_ok (cfg : SbrgCfg) (i0 lead : Nat) (ht : Poly) (hl : lead < ht.le
   split
   · split
     · rw [List.getElem?_eq_getElem hl]
-      exact ⟨_, invChain_eq _ _ _⟩
+      exact ⟨_, invChain_eq _ _ _ (List.ne_nil_of_length_pos (Nat.pos_of_ne_zero ‹_›))⟩
     · exact ⟨_, rfl⟩
   · exact ⟨_, rfl⟩
 
@@ -503,7 +527,7 @@ theorem nextOf_spec (cfg : SbrgCfg) (N i0 lead : Nat) (ht h2 : Poly)
       | some L' =>
         rw [hLe] at hn
         dsimp only at hn
-        rw [invChain_eq] at hn
+        rw [invChain_eq _ _ _ (List.ne_nil_of_length_pos (Nat.pos_of_ne_zero ‹_›))] at hn
         cases hn
         have hL' := hL L' hLe
         have hL'l : L'.1.g.length = N := (hH L' (List.mem_of_getElem? hLe)).1
